@@ -9,7 +9,7 @@ out = ['**%d changes: %d caught by a named proof obligation, %d by the bounded o
        '| change | caught by | first failing obligation / oracle key | what was changed |', '|---|---|---|---|']
 for r in rows:
     out.append('| %s | %s | `%s` | %s |' % (r['id'], r['caught_by'], r['first'][:90].replace('|', '/'),
-                                           r['summary'][:150].replace('|', '/').replace('\n', ' ')))
+                                           r['summary'][:110].replace('|', '/').replace('\n', ' ')))
 p = os.path.join(V, 'DESIGN.md')
 s = open(p).read()
 a = s.index('<!-- SEEDED-TABLE-BEGIN -->') + len('<!-- SEEDED-TABLE-BEGIN -->')
